@@ -27,25 +27,31 @@ import (
 )
 
 type view struct {
-	Name string `json:"view"`
-	IDs  []int  `json:"ids"`
+	Name     string `json:"view"`
+	IDs      []int  `json:"ids"`
+	Primary  bool   `json:"primary,omitempty"`
+	Relevant []int  `json:"relevant,omitempty"` // sched: the requests whose effect a sequential run shows in this view
 }
 
 type caseJ struct {
-	Site     string   `json:"site"`
-	Mode     string   `json:"mode"`            // forced | forced2 | live | stress
-	Site2    string   `json:"site2,omitempty"` // forced2: the site of request 2
-	Yield    string   `json:"yield,omitempty"`
-	Variant  string   `json:"variant,omitempty"`
-	N        int      `json:"n"`
-	Seed     uint64   `json:"seed"`
-	Requests []string `json:"requests,omitempty"` // filled after the run: what was sent
-	Schedule string   `json:"schedule,omitempty"`
-	Acked    []int    `json:"acked,omitempty"`
-	Blocked  bool     `json:"blocked,omitempty"`
-	Hung     bool     `json:"hung,omitempty"`
-	Views    []view   `json:"views,omitempty"`
-	Extra    int      `json:"extra,omitempty"`
+	Site      string     `json:"site"`
+	Mode      string     `json:"mode"`                 // sched | forced | forced2 | live | stress
+	Ops       []opSpec   `json:"ops,omitempty"`        // sched: kind and variant of each request
+	Reqs      []schedReq `json:"reqs,omitempty"`       // sched: site, variant, yield points, what was sent
+	Word      []int      `json:"word,omitempty"`       // sched: which request runs its next segment
+	BlockedAt []int      `json:"blocked_at,omitempty"` // sched: [position in the word, request] of the first grant that ended in a mutex wait
+	Site2     string     `json:"site2,omitempty"`      // forced2: the site of request 2
+	Yield     string     `json:"yield,omitempty"`
+	Variant   string     `json:"variant,omitempty"`
+	N         int        `json:"n"`
+	Seed      uint64     `json:"seed"`
+	Requests  []string   `json:"requests,omitempty"` // filled after the run: what was sent
+	Schedule  string     `json:"schedule,omitempty"`
+	Acked     []int      `json:"acked,omitempty"`
+	Blocked   bool       `json:"blocked,omitempty"`
+	Hung      bool       `json:"hung,omitempty"`
+	Views     []view     `json:"views,omitempty"`
+	Extra     int        `json:"extra,omitempty"`
 }
 
 // prepared episode: the requests (ids 1..n), and how to read the quiescent state afterwards
@@ -81,11 +87,37 @@ func coqIDs(xs []int) string {
 	return "[" + strings.Join(ss, ";") + "]"
 }
 
+func coqNats(xs []int) string {
+	ss := make([]string, len(xs))
+	for i, x := range xs {
+		ss[i] = fmt.Sprintf("%d%%nat", x)
+	}
+	return "[" + strings.Join(ss, ";") + "]"
+}
+
+func coqStrs(xs []string) string {
+	ss := make([]string, len(xs))
+	for i, x := range xs {
+		ss[i] = fmt.Sprintf("%q", x)
+	}
+	return "[" + strings.Join(ss, ";") + "]"
+}
+
 func coqCase(c caseJ) string {
 	mode := fmt.Sprintf("(Stress %d%%nat)", c.N)
 	switch {
 	case c.Hung:
 		mode = fmt.Sprintf("(Hang %d%%nat %q)", c.N, c.Yield)
+	case c.Mode == "sched":
+		rs := make([]string, len(c.Reqs))
+		for i, r := range c.Reqs {
+			rs[i] = fmt.Sprintf("mkSreq %q %d%%nat %s", r.Site, r.Variant, coqStrs(r.Yields))
+		}
+		blocked := "None"
+		if len(c.BlockedAt) == 2 {
+			blocked = fmt.Sprintf("(Some (%d%%nat,%d%%nat))", c.BlockedAt[0], c.BlockedAt[1])
+		}
+		mode = fmt.Sprintf("(Sched [%s] %s %s)", strings.Join(rs, ";"), coqNats(c.Word), blocked)
 	case c.Mode == "forced":
 		mode = fmt.Sprintf("(Forced %q %s)", c.Yield, lib.CoqBool(c.Blocked))
 	case c.Mode == "forced2":
@@ -94,10 +126,14 @@ func coqCase(c caseJ) string {
 		mode = fmt.Sprintf("(Live %q %s)", c.Yield, lib.CoqBool(c.Blocked))
 	}
 	vs := make([]string, len(c.Views))
+	var rel []string
 	for i, v := range c.Views {
 		vs[i] = fmt.Sprintf("(%q,%s)", v.Name, coqIDs(v.IDs))
+		if c.Mode == "sched" {
+			rel = append(rel, fmt.Sprintf("(%q,%s,%s)", v.Name, lib.CoqBool(v.Primary), coqIDs(v.Relevant)))
+		}
 	}
-	return fmt.Sprintf("mkCase %q %s %s [%s] %d", c.Site, mode, coqIDs(c.Acked), strings.Join(vs, ";"), c.Extra)
+	return fmt.Sprintf("mkCase %q %s %s [%s] %d [%s]", c.Site, mode, coqIDs(c.Acked), strings.Join(vs, ";"), c.Extra, strings.Join(rel, ";"))
 }
 
 func ackedOf(ok []bool) []int {
@@ -162,8 +198,59 @@ func runEpisode(w *world, s *siteDef, c caseJ) caseJ {
 	return c
 }
 
+// runSchedEpisode: fresh objects, the requests of ops, one word.
+func runSchedEpisode(w *world, ops []opSpec, word []int) caseJ {
+	ep := buildEpisode(w, ops)
+	c := caseJ{Site: ep.reqs[0].Site, Mode: "sched", N: len(ops), Ops: ops, Word: word, Reqs: ep.reqs}
+	reqs := make([]func() bool, len(ep.reqs))
+	yields := make([][]string, len(ep.reqs))
+	for i, r := range ep.reqs {
+		reqs[i] = r.run
+		yields[i] = r.Yields
+		c.Requests = append(c.Requests, fmt.Sprintf("%d: %s", i+1, r.Desc))
+	}
+	res := runSched(reqs, yields, word)
+	c.Schedule = fmt.Sprintf("word %v over the request indices: each letter lets that request run to its next yield point", word)
+	if res.blockedPos >= 0 {
+		c.BlockedAt = []int{res.blockedPos, res.blockedThread}
+		c.Schedule += fmt.Sprintf("; at letter %d request %d waited on a mutex, the rest was drained in index order", res.blockedPos, res.blockedThread+1)
+	}
+	if res.hung {
+		c.Hung = true
+		c.Schedule += "; the requests never finished: deadlock"
+		deadlocks++
+		w.rebuild(kindFamily[ops[0].Kind])
+		return c
+	}
+	c.Acked = ackedOf(res.ok)
+	for _, v := range ep.views {
+		ids := v.read()
+		sort.Ints(ids)
+		c.Views = append(c.Views, view{Name: v.Name, IDs: ids, Primary: v.Primary, Relevant: v.Relevant})
+	}
+	if ep.extra != nil {
+		c.Extra = ep.extra()
+	}
+	if ep.finish != nil {
+		ep.finish()
+	}
+	return c
+}
+
+func hasPrefix(w, p []int) bool {
+	if len(p) > len(w) {
+		return false
+	}
+	for i := range p {
+		if w[i] != p[i] {
+			return false
+		}
+	}
+	return true
+}
+
 func key(c caseJ) string {
-	b, _ := json.Marshal([]interface{}{c.Site, c.Site2, c.Variant, c.Mode, c.Yield, c.N, c.Acked, c.Views, c.Extra, c.Blocked, c.Hung})
+	b, _ := json.Marshal([]interface{}{c.Ops, c.Word, c.BlockedAt, c.Site, c.Site2, c.Variant, c.Mode, c.Yield, c.N, c.Acked, c.Views, c.Extra, c.Blocked, c.Hung})
 	return string(b)
 }
 
@@ -184,6 +271,7 @@ func main() {
 		dv.Close()
 	}
 	ctl.install(lib.NewRand(o.Seed ^ 0x5bd1e995))
+	loadSiteYields()
 	w := newWorld()
 	sites := allSites()
 	t0 := time.Now()
@@ -227,6 +315,13 @@ func main() {
 		if err := lib.LoadReplay(o.Replay, &c); err != nil {
 			fatal("%v", err)
 		}
+		if c.Mode == "sched" {
+			cj := runSchedEpisode(w, c.Ops, c.Word)
+			run.Add("sched:"+pairName(c.Ops), coqCase(cj), cj, key(cj))
+			run.Finish("c11case", "replay", tail)
+			shutdown()
+			return
+		}
 		var s *siteDef
 		for i := range sites {
 			if sites[i].name == c.Site && sites[i].variant == c.Variant {
@@ -246,21 +341,45 @@ func main() {
 	if o.Thorough() {
 		ti = 1
 	}
-	// forced schedules first: deterministic
-	for i := range sites {
-		s := &sites[i]
-		for _, y := range s.yields {
-			reps := 1 + ti
-			for k := 0; k < reps; k++ {
-				add(s, caseJ{Site: s.name, Variant: s.variant, Mode: "forced", Yield: y, N: 2, Seed: rng.U64()})
+	// every interleaving of the yield-delimited segments, per pair of requests on one object
+	for _, pd := range allPairs() {
+		if pd.tier > ti {
+			continue
+		}
+		counts := make([]int, len(pd.ops))
+		for i, op := range pd.ops {
+			counts[i] = len(siteYields[kindSite[op.Kind]]) + 1
+		}
+		name := pairName(pd.ops)
+		var blockedPrefixes [][]int
+		for _, word := range words(counts) {
+			pruned := false
+			for _, p := range blockedPrefixes {
+				if hasPrefix(word, p) {
+					pruned = true
+				}
+			}
+			if pruned {
+				// the schedule was abandoned at this prefix: the remaining letters do not matter
+				run.Count("sched-words-same-blocked-prefix:" + name)
+				continue
+			}
+			cj := runSchedEpisode(w, pd.ops, word)
+			run.Add("sched:"+name, coqCase(cj), cj, key(cj))
+			run.Count("mode:sched")
+			run.Count("sched-words-run:" + name)
+			if len(cj.BlockedAt) == 2 {
+				blockedPrefixes = append(blockedPrefixes, append([]int{}, word[:cj.BlockedAt[0]+1]...))
+				run.Count("sched-blocked:" + name)
+			}
+			if cj.Hung {
+				run.Count("deadlock:" + name)
+				break
 			}
 		}
 	}
 	for i := range sites {
 		s := &sites[i]
-		for _, m := range s.mixed {
-			add(s, caseJ{Site: s.name, Site2: m[1], Variant: s.variant, Mode: "forced2", Yield: m[0], N: 2, Seed: rng.U64()})
-		}
 		for _, y := range s.live {
 			add(s, caseJ{Site: s.name, Variant: s.variant, Mode: "live", Yield: y, N: 2, Seed: rng.U64()})
 		}
